@@ -99,6 +99,30 @@ def scores_part(ck, tier):
                                  "units 2^-12 times smaller)", {**idn, "copies_1e5_apart": R, "data_points": n_ * R, "differs": badk,
                                                                 "want": {k: wants[k] for k in badk}, "got": {k: got[k] for k in badk}},
                                  site="GpRegressor.marginal_likelihood:large" if any(k.startswith("lml") for k in badk) else "GpRegressor.loo_likelihood:large")
+        # two regressors built from the SAME kernel / mean objects (sums and change-points included): the scores of the first are its own
+        try:
+            from inference.gp import GpRegressor as _GR
+            import warnings as _w
+            kinst, cth_ = G.build_kernel(pb["kern"], len(pb["X"][0]), len(pb["X"]))
+            minst, mth_ = G.build_mean(pb["mean"])
+            hp_ = np.array(list(mth_) + list(cth_), dtype=float)
+            Xf = np.array(pb["X"], dtype=float)
+            sg = G.rmat(pb["sig"])
+            kw_ = {"y_cov": sg} if sg.any() else {}
+            with _w.catch_warnings(), np.errstate(all="ignore"):
+                _w.simplefilter("ignore")
+                x1 = Xf if Xf.shape[1] > 1 else Xf[:, 0]
+                x2 = (Xf * 1.5 + 0.25) if Xf.shape[1] > 1 else (Xf * 1.5 + 0.25)[:, 0]
+                gA = _GR(x=x1, y=np.array(pb["y"], dtype=float), hyperpars=hp_.copy(), kernel=kinst, mean=minst, **kw_)
+                gB = _GR(x=x2, y=np.array(pb["y"], dtype=float) + 1.0, hyperpars=hp_.copy(), kernel=kinst, mean=minst, **kw_)
+                lA, lA2, oA = float(gA.marginal_likelihood(hp_)), float(gA.marginal_likelihood_gradient(hp_)[0]), float(gA.loo_likelihood(hp_))
+            ck.case(str(idn) + "shared")
+            if not (SL.close(lA, want_lml, mag) and SL.close(lA2, want_lml, mag) and SL.close(oA, want_loo, mag2)):
+                ck.violation("the scores of a regressor are unaffected by another regressor built from the same kernel and mean objects",
+                             {**idn, "want_lml": want_lml, "lml": lA, "from_gradient_variant": lA2, "want_loo": want_loo, "loo": oA},
+                             site="GpRegressor.__init__:shared-kernel")
+        except Exception as ex:
+            ck.violation("regressors sharing a kernel object raised", {**idn, "error": repr(ex)[:300]}, site="GpRegressor.__init__:shared-kernel")
         want_mv = np.array([[G.fr(m[0]), G.fr(m[1])] for m in c["loomv"]])
         if not (GE.close(mu_l, want_mv[:, 0], float(np.max(np.abs(pb["y"])) + 1)) and GE.close(np.asarray(sd_l) ** 2, want_mv[:, 1])):
             ck.violation("leave-one-out predictions = prediction of each observation from the rest",
